@@ -531,3 +531,11 @@ func PreemptOnlyAt(objs ...interface{}) {}
 // FirstTouchReduction: no scheduling point before the first use of a
 // synchronisation object by any thread (a heuristic reduction, listed as a bound).
 func FirstTouchReduction() {}
+
+// TimersFire: from here on timers fire in the model (discrete-event clock: time advances only
+// when no thread can run, to the earliest pending deadline).  Natively a no-op: real timers.
+func TimersFire() {}
+
+// Quiesce lets every other goroutine run until it finishes or blocks, like Settle, but the
+// order in which they get there IS explored (every interleaving at their scheduling points).
+func Quiesce() { time.Sleep(50 * time.Millisecond) }
